@@ -33,15 +33,25 @@ def strip_comments(src):
 
 
 def ev(expr, env):
-    """evaluate a Rust integer constant expression over + - * / << and names"""
-    e = re.sub(r"_?(u8|u16|u32|u64|u128|usize|i32|i64)\b", "", expr)
-    e = e.replace("_", "") if re.fullmatch(r"[0-9xXa-fA-F_]+", e.strip()) else e
-    e = re.sub(r"\b(0x[0-9a-fA-F_]+|[0-9][0-9_]*)\b", lambda m: m.group(0).replace("_", ""), e)
-    e = re.sub(r"\bSelf::", "", e)
-    if not re.fullmatch(r"[\sA-Za-z0-9_+\-*/()<>x]*", e):
+    """evaluate a Rust integer constant expression over + - * / % << >> | & ^, parentheses, literals in any
+    base with or without type suffix / digit separators, `as <int type>` casts, and names of earlier constants"""
+    e = re.sub(r"\bas\s+(u8|u16|u32|u64|u128|usize|i8|i16|i32|i64|i128|isize)\b", "", expr)
+
+    def lit(m):
+        t = re.sub(r"_?(u8|u16|u32|u64|u128|usize|i8|i16|i32|i64|i128|isize)$", "", m.group(0))
+        t = t.replace("_", "")
+        return str(int(t, 0))
+
+    e = re.sub(r"\b(0x[0-9a-fA-F_]+|0b[01_]+|0o[0-7_]+|[0-9][0-9_]*)(_?(u8|u16|u32|u64|u128|usize|i8|i16|i32|i64|i128|isize))?\b", lit, e)
+    e = re.sub(r"\b(Self|self|super|crate)::", "", e)
+    e = re.sub(r"\b[A-Za-z_][A-Za-z0-9_]*::(?=[A-Z_][A-Z0-9_]*\b)", "", e)   # module-qualified constants
+    if not re.fullmatch(r"[\sA-Za-z0-9_+\-*/%()<>|&^]*", e):
         raise Missing(f"unsupported constant expression {expr!r}")
     e = e.replace("/", "//")
-    return int(eval(e, {"__builtins__": {}}, dict(env)))
+    try:
+        return int(eval(e, {"__builtins__": {}}, dict(env)))
+    except Exception:
+        raise Missing(f"cannot evaluate constant expression {expr!r}")
 
 
 def consts(src, names, label, env=None):
@@ -49,7 +59,7 @@ def consts(src, names, label, env=None):
     out = {}
     src = strip_comments(src)
     for n in names:
-        ms = re.findall(r"\bconst\s+" + n + r"\s*:\s*\w+\s*=\s*([^;]+);", src)
+        ms = re.findall(r"\b(?:const|static)\s+" + n + r"\s*:\s*\w+\s*=\s*([^;]+);", src)
         if not ms:
             raise Missing(f"{label}::{n}")
         vals = {ev(m, env) for m in ms}
@@ -72,17 +82,27 @@ def main():
         raise Missing("utils::K_SELECT_IN_BYTE length")
     uc = strip_comments(u)
     for n in ("k_ones_step4", "k_ones_step8", "k_lambdas_step8"):
-        mm = re.search(r"let\s+" + n + r"\s*=\s*(0x[0-9A-Fa-f_]+)_u64\s*;", uc)
+        mm = re.search(r"(?:let|const)\s+(?i:" + n + r")\s*(?::\s*u64\s*)?=\s*([^;]+);", uc)
         if not mm:
             raise Missing(f"utils::select_in_word::{n}")
-        d[n] = int(mm.group(1).replace("_", ""), 16)
+        d[n] = ev(mm.group(1), {})
     # ---------------------------------------------------------------- rs_support_plain
     r = read("src/qvector/rs_qvector/rs_support_plain.rs")
     rc = consts(r, ["SELECT_NUM_SAMPLES", "BLOCKS_IN_SUPERBLOCK"], "rs_support_plain")
-    mm = re.search(r"assert!\(\s*qv\.len\(\)\s*<\s*\(\s*1\s*<<\s*(\d+)\s*\)\s*\)", strip_comments(r))
+    # assert!(qv.len() < (1 << 43)) -- the bound may be written as any constant expression (or a named constant)
+    rs_env = dict(rc)
+    for cn, ce in re.findall(r"\b(?:const|static)\s+([A-Z_][A-Z0-9_]*)\s*:\s*\w+\s*=\s*([^;]+);", strip_comments(r)):
+        try:
+            rs_env.setdefault(cn, ev(ce, rs_env))
+        except Missing:
+            pass
+    mm = re.search(r"assert!\(\s*qv\.len\(\)\s*<\s*((?:[^(),]|\([^()]*\))+?)\s*[,)]", strip_comments(r))
     if not mm:
         raise Missing("rs_support_plain::new length limit")
-    d["RSQ_LEN_LIMIT_LOG"] = int(mm.group(1))
+    lim = ev(mm.group(1), rs_env)
+    if lim <= 0 or lim & (lim - 1):
+        raise Missing(f"rs_support_plain::new length limit {lim} is not a power of two")
+    d["RSQ_LEN_LIMIT_LOG"] = lim.bit_length() - 1
     q = strip_comments(read("src/qvector/rs_qvector.rs"))
     for n in ("RSQVector256", "RSQVector512"):
         mm = re.search(r"pub\s+type\s+" + n + r"\s*=\s*RSQVector<\s*RSSupportPlain<\s*(\d+)\s*>\s*>", q)
@@ -101,10 +121,17 @@ def main():
     # ---------------------------------------------------------------- prefetch sampling shift
     shifts = set()
     for f in ("src/quadwt/mod.rs", "src/quadwt/huffqwt.rs"):
-        ms = re.findall(r"PrefetchSupport::new\(\s*&qv\s*,\s*(\d+)\s*\)", strip_comments(read(f)))
+        src_f = strip_comments(read(f))
+        ms = re.findall(r"PrefetchSupport::new\(\s*&\s*\w+\s*,\s*([^()]+?)\s*\)", src_f)
         if not ms:
             raise Missing(f"{f}: PrefetchSupport::new sampling shift")
-        shifts |= {int(x) for x in ms}
+        f_env = {}
+        for cn, ce in re.findall(r"\b(?:const|static)\s+([A-Z_][A-Z0-9_]*)\s*:\s*\w+\s*=\s*([^;]+);", src_f):
+            try:
+                f_env.setdefault(cn, ev(ce, f_env))
+            except Missing:
+                pass
+        shifts |= {ev(x, f_env) for x in ms}
     if len(shifts) != 1:
         raise Missing(f"prefetch sampling shift differs between call sites: {sorted(shifts)}")
 
